@@ -69,7 +69,8 @@ META = dict(
               'checks of name-keyed vs list-ordered access; identity-preserving '
               'flow of parameter values through every from_parameters'
               '; unknown guards enumerated as free atoms; value/label pairing of labe'
-              'lled-array parameters',
+              'lled-array parameters'
+              '; class-level mutable state scan of the model classes; copy-free hand-off of the four sections to the Mapper (ties are by identity); constructor-only attribute stores in the scatterer package',
     level_text='Static: decides the structural clauses G1-G9 for every map the '
                'writer can produce (the grammar is finite) and every from_parameters '
                'implementation in the package.  These are the conditions under '
